@@ -162,6 +162,7 @@ def run(ctx):
                                       key=f'graded-incomplete:{"degenerate" if degenerate else "nondegenerate"}')
     blades_pass(ctx)
     strict_wrapper_pass(ctx)
+    registered_symbolic_options_pass(ctx)
     ctx.assumptions = ['floats only where kingdon itself introduces them (sqrt, outer series): compared to 1e-9',
                        'codegen_symbolcls=sympy.Symbol is slow; dense composite operators are skipped for it in d >= 3']
 
@@ -249,6 +250,44 @@ def strict_wrapper_pass(ctx):
         ctx.case(case, tag='opts:sympy:d6')
         if base[0] == 'ok' and (got[0] != 'ok' or not close(got[1], base[1])):
             ctx.violation('option-differs', case, str(base[1])[:200], str(got[1])[:200], key='differs:sympy:inv:d6')
+
+
+def registered_symbolic_options_pass(ctx):
+    """registered functions through the symbolic route (`alg.register(symbolic=True)`) under the options that decide in which
+    arithmetic the expression is traced - the default codegen symbol class (kingdon's RationalPolynomial), sympy.Symbol, cse off:
+    quotients, inverses and negative powers of scalars, pseudoscalars and single blades; every variant returns what the plain
+    function returns on the same operands"""
+    import sympy
+    from kingdon import MultiVector
+    rng = ctx.rng
+    def quotient(x, y): return x / y
+    def times_inverse(x, y): return x * y.inv()
+    def twice(x, y): return (x / y) / y
+    def product_over_square(x, y): return (x * y) / (y * y)
+    def neg_power(x, y): return x * y ** -2
+    funcs = [quotient, times_inverse, twice, product_over_square, neg_power]
+    for sig in ([1, 1, 1], [1, -1]):
+        d = len(sig)
+        variants = [('default', {}), ('cse=False', {'cse': False}), ('symcls=sympy', {'codegen_symbolcls': sympy.Symbol})]
+        divisors = [[0], [2 ** d - 1], [1], [2]]
+        for f in funcs:
+            for ky in divisors:
+                kx = rng.choice([[1, 2], [0, 3], [1, 2, 2 ** d - 1]])
+                vx = [Fraction(rng.randint(1, 7)) for _ in kx]; vy = [Fraction(rng.choice((2, 3, 5, -4)))]
+                plain_alg = make_algebra(sig)
+                exp = result(lambda: f(MultiVector.fromkeysvalues(plain_alg, tuple(kx), list(vx)), MultiVector.fromkeysvalues(plain_alg, tuple(ky), list(vy))))
+                if exp[0] != 'ok':
+                    continue
+                for optname, kw in variants:
+                    alg = make_algebra(sig, **kw)
+                    rf = alg.register(symbolic=True)(f)
+                    got = result(lambda: rf(MultiVector.fromkeysvalues(alg, tuple(kx), list(vx)), MultiVector.fromkeysvalues(alg, tuple(ky), list(vy))))
+                    case = {'sig': sig, 'options': optname, 'registered': f.__name__, 'symbolic_route': True, 'kx': kx, 'ky': ky, 'vx': [str(v) for v in vx], 'vy': [str(v) for v in vy]}
+                    ctx.case(case, tag='opts:registered-symbolic:' + optname)
+                    if got[0] != 'ok':
+                        ctx.violation('option-raises', case, str(exp[1])[:150], str(got[1])[:200], key=f'raises:{optname}:registered-symbolic:{f.__name__}')
+                    elif not close(got[1], exp[1]):
+                        ctx.violation('option-differs', case, str(exp[1])[:200], str(got[1])[:200], key=f'differs:{optname}:registered-symbolic:{f.__name__}')
 
 
 def blades_pass(ctx):
